@@ -278,6 +278,7 @@ func RunCheck(p Property, opt Options) int {
 	knownSeen := map[string]bool{}
 	_ = os.MkdirAll(filepath.Join(opt.VerifDir, "replays"), 0o755)
 	reported := 0
+	notRepro := 0
 	for _, k := range keys {
 		eo := firstByKey[k]
 		var v Violation
@@ -301,8 +302,8 @@ func RunCheck(p Property, opt Options) int {
 		final := confirmAndMinimise(p, env, rp, plan, opt.Tier)
 		if final == nil {
 			// does not replay from its own file: a simulator bug, never a VIOLATION line
-			logf("NOT-REPRODUCIBLE property=%s rule=%s witness=%s episode=%d (simulator determinism problem)", p.ID(), v.Rule, v.Witness, eo.i)
-			exit = maxInt(exit, 2)
+			logf("NOT-REPRODUCIBLE property=%s rule=%s witness=%s episode=%d (does not replay from its own file: not reported as a violation)", p.ID(), v.Rule, v.Witness, eo.i)
+			notRepro++
 			nViol--
 			continue
 		}
@@ -329,6 +330,9 @@ func RunCheck(p Property, opt Options) int {
 	if err := ev.write(filepath.Join(opt.VerifDir, "evidence", p.ID()+".json")); err != nil {
 		logf("BUILD-TROUBLE: evidence: %v", err)
 		return 2
+	}
+	if notRepro > 0 && exit == 0 {
+		exit = 2 // nothing replayable was found, but something was seen that does not replay: simulator trouble
 	}
 	if inconclusive > 0 && exit == 0 {
 		logf("INCONCLUSIVE: %d episodes ended abnormally (budget/timeout/harness)", inconclusive)
@@ -402,6 +406,15 @@ func reproduces(p Property, env *Env, sc *scen.Scenario, rule, witness string) (
 	for _, v := range p.Check(sc, run, env) {
 		if v.Rule == rule && v.Witness == witness {
 			return &v, run
+		}
+	}
+	// a property may accept a near witness as the same violation (race reports name whichever of
+	// several racing pairs on the same data the detector met first)
+	if sv, ok := p.(interface{ SameViolation(rule, w1, w2 string) bool }); ok {
+		for _, v := range p.Check(sc, run, env) {
+			if v.Rule == rule && sv.SameViolation(rule, witness, v.Witness) {
+				return &v, run
+			}
 		}
 	}
 	return nil, run
